@@ -299,81 +299,7 @@ Definition event := (label * nat * option nat)%type.
 Definition opt_nat_ok (o : option nat) (n : nat) : bool :=
   match o with None => true | Some m => Nat.eqb m n end.
 
-(* result: final state (None = some event was not an enabled step), first position at which the
-   step was not enabled / the predicted pc differed / the predicted channel length differed *)
-Record replay_result := mkRR {
-  rr_state : option state; rr_reject : option nat; rr_pc : option nat; rr_len : option nat;
-  rr_max_running : nat; rr_max_acq : nat }.
-
-Definition first_some (a : option nat) (b : option nat) : option nat :=
-  match a with Some _ => a | None => b end.
-
-Fixpoint replay_from (fx : bool) (i : nat) (evs : list event) (s : state) (r : replay_result) : replay_result :=
-  match evs with
-  | [] => mkRR (Some s) (rr_reject r) (rr_pc r) (rr_len r) (rr_max_running r) (rr_max_acq r)
-  | (l, code, olen) :: t =>
-      match step fx s l with
-      | None => mkRR None (Some i) (rr_pc r) (rr_len r) (rr_max_running r) (rr_max_acq r)
-      | Some s' =>
-          let p_ok := match nth_error (threads s') (label_thread s l) with
-                      | Some p => Nat.eqb (pc_code p) code
-                      | None => false
-                      end in
-          let l_ok := opt_nat_ok olen (chan s') in
-          replay_from fx (S i) t s'
-            (mkRR None (rr_reject r)
-               (first_some (rr_pc r) (if p_ok then None else Some i))
-               (first_some (rr_len r) (if l_ok then None else Some i))
-               (Nat.max (rr_max_running r) (running s'))
-               (Nat.max (rr_max_acq r) (count is_acq (holders s'))))
-      end
-  end.
-
-Definition replay (fx : bool) (n : nat) (evs : list event) : replay_result :=
-  replay_from fx 0 evs (init n) (mkRR None None None None 0 0).
-
-Record case := mk_case {
-  k_fx : bool;                 (* which order of operations the instrumented block() showed *)
-  k_cap : nat;
-  k_events : list event;
-  k_final_len : nat;           (* len(ch) read at the end of the run *)
-  k_quiescent : bool;          (* every call had returned at the end of the run *)
-  k_free_after_release_all : option nat;
-                               (* tokens the harness could take without blocking after calling every release
-                                  function (None: not measured because some call never returned) *)
-  k_over : bool                (* the harness saw more than cap goroutines in their critical sections *)
-}.
-
-(* component codes: 1 an event is not an enabled step; 2 predicted pc; 3 predicted len(ch);
-   4 final len(ch); 5 quiescence; 6 capacity after releasing everything;
-   7 the harness saw over-admission although the model's count of acquired holders stayed within cap *)
-Definition check_case (c : case) : list nat :=
-  let r := replay (k_fx c) (k_cap c) (k_events c) in
-  match rr_state r with
-  | None => [1]
-  | Some s =>
-      (match rr_pc r with Some _ => [2] | None => [] end) ++
-      (match rr_len r with Some _ => [3] | None => [] end) ++
-      (if Nat.eqb (chan s) (k_final_len c) then [] else [4]) ++
-      (if Bool.eqb (quiescent s) (k_quiescent c) then [] else [5]) ++
-      (match k_free_after_release_all c with
-       | None => []
-       | Some free =>
-           (* after every holder was released and everything returned, the model says the channel holds
-              chan - (holders still acquired) tokens, so cap - that many are free *)
-           if Nat.eqb (cap s - (chan s - count is_acq (holders s))) free then [] else [6]
-       end) ++
-      (if k_over c && (rr_max_acq r <=? k_cap c) then [7] else [])
-  end.
-
-Fixpoint mismatches_from_sparse (_ : nat) (cs : list (nat * case)) : list (nat * list nat) :=
-  match cs with
-  | [] => []
-  | (i, c) :: t => match check_case c with
-                   | [] => mismatches_from_sparse 0 t
-                   | l => (i, l) :: mismatches_from_sparse 0 t
-                   end
-  end.
+(* the replay of observed events, for one or several limiters, is in Limiter/ModelMulti.v *)
 
 (* the witness of DESIGN section 8, F11 (limit 1): H acquires, enters block (CAS, receive), G2 acquires,
    H's f returns and its CAS blocked->acquired succeeds, R calls H's release: Swap sees acquired and
